@@ -70,7 +70,9 @@ def audit_2d(rep, rec):
     # finite-volume weights of the radial nodes (annuli around the nodes of linspace(0, R, Nr))
     edges = np.concatenate([[0.0], (r[1:] + r[:-1]) / 2, [R]])
     ar = np.pi * (edges[1:] ** 2 - edges[:-1] ** 2)
-    hz = c["height"] / (Nz - 1) * np.concatenate([[0.5], np.ones(Nz - 2), [0.5]])
+    # axial weights: the scheme's own discrete conservation law (theorem C02_cooling_step_energy_balance_exact) counts every
+    # node, the boundary nodes included, with the full dz = height / Nz
+    hz = dz * np.ones(Nz)
     vol = hz[:, None] * ar[None, :]
     K = S.k["s0"]
     heat = c["rho_l"] * c["cp_solution"] * ((T[: ie + 1] - (S.opcond.cooling["start"] + 273.15)) * vol[None]).sum(axis=(1, 2))
@@ -81,16 +83,20 @@ def audit_2d(rep, rec):
     if c["configuration"] == "jacket":
         Kw = 1 / (1 / K + c["air_gap"] / c["lambda_air"])
         qs = (Kw * (sh[: ie + 1, None] - Tprev[:, :, -1]) * hz[None, :] * 2 * np.pi * R).sum(axis=1)
+    qt = 0.0
     if c["configuration"] == "VISF":
-        return          # evaporation in 2D: covered by C15/C20 oracles
-    q = np.cumsum(dt * (qb + qs))
+        # evaporation at the top, only inside the vacuum window (time of the step as in the 1D audit)
+        t = np.asarray(S.time) * 3600
+        qt = np.array([(-(sr.flux_2d(S, Tprev[k][-1]) * c["Dh_evaporation"]) * ar).sum()
+                       if c["t_vac_start"] * 3600 < t[k] < (c["t_vac_start"] + c["t_vac_duration"]) * 3600 else 0.0 for k in range(ie + 1)])
+    q = np.cumsum(dt * (qb + qs + qt))
     ref = np.abs(q).max() + 1e-30
     rel = np.abs(heat - q) / ref
     rep.coverage["balance_2D_max_rel_error_" + c["configuration"]] = float(rel.max())
     if rel.max() > 0.10:
         k = int(np.argmax(rel))
         rep.violation("2D-balance %s aspect=%s" % (c["configuration"], "default" if abs(c["height"] - c["diameter"]) < 1e-12 else "non-default"),
-                      "%s: at cooling step %d the heat content changed by %r J but %r J crossed bottom+side (%.0f %% off); height/diameter = %.2f" % (
+                      "%s: at cooling step %d the heat content changed by %r J but %r J crossed bottom+side+top (%.0f %% off); height/diameter = %.2f" % (
                           lab, k, heat[k], q[k], 100 * rel[k], c["height"] / c["diameter"]), dict(run=lab, step=k))
 
 
@@ -103,14 +109,17 @@ def check(rep, tier):
     rep.trusted = ["Coq 8.16.1 kernel + vm_compute", "binary64 instance of model/Sn1D.v", "harness/c02.py enthalpy audits (finite-volume sums; thresholds 15 % (1D solidification) / 10 % (2D cooling))", "2D: audit + one-step correspondence with model/Sn2D.v"]
     recs = sr.catalogue(rng, tier, dims=("spatial_1D", "spatial_2D"), confs=None, n1=3 if tier == "quick" else 9, n2=0)
     recs += sr.catalogue(rng, tier, dims=("spatial_1D",), confs=["VISF"], n1=1, late_vacuum=True)
+    recs += sr.catalogue(rng, tier, dims=("spatial_1D",), confs=["VISF", "shelf"], n1=1 if tier == "quick" else 2, repoint=True)
     # 2D: shelf and jacket, default and non-default aspect ratios
-    for conf, h, d in ([("jacket", 0.06, 0.06), ("jacket", 0.05, 0.12)] if tier == "quick" else
-                       [("jacket", 0.06, 0.06), ("jacket", 0.05, 0.12), ("jacket", 0.08, 0.05), ("shelf", 0.06, 0.12), ("shelf", 0.05, 0.05)]):
+    for conf, h, d in ([("jacket", 0.06, 0.06), ("jacket", 0.05, 0.12), ("VISF", 0.06, 0.12)] if tier == "quick" else
+                       [("jacket", 0.06, 0.06), ("jacket", 0.05, 0.12), ("jacket", 0.08, 0.05), ("shelf", 0.06, 0.12), ("shelf", 0.05, 0.05), ("VISF", 0.06, 0.12), ("VISF", 0.06, 0.03)]):
         prog = dict(start=20, end=-50, rate=2 / 60, holds=[], t_tot=3600.0, dt=1.0)
-        S = sr.make(dim="spatial_2D", conf=conf, height=h, diameter=d, K=300, prog=prog)
+        # VISF: a long vacuum window during cooling, height != diameter (the top flux is an axial gradient)
+        ex = {"VISF": {"t_vac_start": 0.1, "t_vac_duration": 1.0, "kappa": 0.02}} if conf == "VISF" else None
+        S = sr.make(dim="spatial_2D", conf=conf, height=h, diameter=d, K=300, prog=prog, extra=ex)
         dt, _ = sr.step_info(S)
         prog["t_tot"] = float(int(dt * 9800))
-        S = sr.make(dim="spatial_2D", conf=conf, height=h, diameter=d, K=300, prog=prog)
+        S = sr.make(dim="spatial_2D", conf=conf, height=h, diameter=d, K=300, prog=prog, extra=ex)
         rec = dict(label="spatial_2D/%s h=%g d=%g K=300" % (conf, h, d), dim="spatial_2D", conf=conf, S=S, dt=dt, nsteps=9801, prog=prog, error=None)
         try:
             sr.run(S)
